@@ -174,6 +174,9 @@ func c29() {
 		"controller.go: archive not removed on terminate -> d-files-left-after-terminate concurrent_reset=false (75)",
 		"controller.go: reset leaves the archive of a running session -> e-history-not-cleared-by-reset (72)",
 		"controller.go: pause flag not persisted -> b-pause-flag-changed-in-restart, a-started-while-paused (425)",
+		"controller.go: Pause returns success without re-saving when the in-memory flag is already set (after a Pause whose save failed) -> b-pause-flag-changed-in-restart save_fault=pause, a-started-while-paused origin=Pause (save-fault histories)",
+		"controller.go: flush answered before the transition errors are examined -> c-flush-succeeded-on-failed-cycle (transition-fault histories)",
+		"controller.go: resume without the disabled check, or with the check before taking the lifecycle lock -> d-call-after-terminate (Connect), d-files-reappeared-after-terminate, d-terminated-session-listed-after-restart (112-155 violations at seeds 1,2,3,7,42; command-race histories with slow non-preemptable scans)",
 		"fix 1b06d96 reversed (reset ignores c.disabled) -> d-files-left-after-terminate concurrent_reset=true, 5-11 per quick run at seeds 1,2,3,7,42",
 	})
 	controls := []string{"pause_intervals_judged", "flush_wait_succeeded", "terminates_judged", "restarts_with_paused_sessions", "resets_judged", "calls:Stage", "calls:Supply", "calls:Transition", "calls:Scan"}
@@ -293,6 +296,7 @@ type history struct {
 	programs [][]c29Op
 	restarts []time.Duration
 	digest   int64
+	flavour  string
 
 	obsMu      sync.Mutex
 	resets     []resetObs
@@ -315,9 +319,25 @@ func newHistory(h *scripted.Harness, rng *rand.Rand, idx int, quick bool) *histo
 	// a second command (Reset, Resume, Flush, Pause) issued a moment later that
 	// has selected the session already and gets the lifecycle lock afterwards.
 	directed := idx%8 == 7
-	if directed {
+	// Every eighth history injects a fault: idx%16 == 3 makes the session-file
+	// save of one Pause / Resume fail (the sessions directory is renamed away
+	// for the duration of that call) and retries the command; idx%16 == 11
+	// makes the endpoints' Transition fail fatally while waited flushes are in
+	// flight.
+	saveFault, transitionFault := idx%16 == 3, idx%16 == 11
+	hs.flavour = "random"
+	switch {
+	case directed:
 		nslots, slow = 3, true
+		hs.flavour = "command-race"
+	case saveFault:
+		nslots = 2
+		hs.flavour = "save-fault"
+	case transitionFault:
+		nslots = 1 + rng.Intn(2)
+		hs.flavour = "transition-fault"
 	}
+	planned := directed || saveFault || transitionFault
 	delay := func(op string) time.Duration {
 		var d time.Duration
 		hs.rand(func(r *rand.Rand) {
@@ -329,6 +349,13 @@ func newHistory(h *scripted.Harness, rng *rand.Rand, idx int, quick bool) *histo
 				}
 			case scripted.OpShutdown, scripted.OpPoll:
 				d = 0
+			case scripted.OpScan:
+				if directed {
+					// slow and not preemptable: halt has to wait for it
+					d = time.Duration(3000+r.Intn(9000)) * time.Microsecond
+				} else if r.Intn(3) > 0 {
+					d = time.Duration(r.Intn(3000)) * time.Microsecond
+				}
 			default:
 				if r.Intn(3) > 0 {
 					d = time.Duration(r.Intn(3000)) * time.Microsecond
@@ -338,7 +365,7 @@ func newHistory(h *scripted.Harness, rng *rand.Rand, idx int, quick bool) *histo
 		return d
 	}
 	for s := 0; s < nslots; s++ {
-		slot := &c29Slot{Index: s, Mode: c11Modes[rng.Intn(4)], Paused: !directed && rng.Intn(10) < 2}
+		slot := &c29Slot{Index: s, Mode: c11Modes[rng.Intn(4)], Paused: !planned && rng.Intn(10) < 2}
 		content := func() *core.Entry {
 			m := map[string]*core.Entry{}
 			for k := 0; k < 3+rng.Intn(2); k++ {
@@ -390,19 +417,52 @@ func newHistory(h *scripted.Harness, rng *rand.Rand, idx int, quick bool) *histo
 			return nil
 		}
 		base := fmt.Sprintf("/scripted/c29/h%d/s%d", idx, s)
-		slot.A = h.World.NewRoot(base+"/alpha", scripted.Options{Journal: hs.j, Content: content(), PreservesExecutability: true, Delay: delay, Poll: poll})
-		slot.B = h.World.NewRoot(base+"/beta", scripted.Options{Journal: hs.j, Content: content(), PreservesExecutability: true, Delay: delay, Poll: poll})
+		slot.A = h.World.NewRoot(base+"/alpha", scripted.Options{Journal: hs.j, Content: content(), PreservesExecutability: true, Delay: delay, Poll: poll, ScanNotPreemptable: directed})
+		slot.B = h.World.NewRoot(base+"/beta", scripted.Options{Journal: hs.j, Content: content(), PreservesExecutability: true, Delay: delay, Poll: poll, ScanNotPreemptable: directed})
 		hs.slots = append(hs.slots, slot)
 	}
+	us := func(lo, span int) time.Duration { return time.Duration(lo+rng.Intn(span)) * time.Microsecond }
 	if directed {
 		for s := 0; s < nslots; s++ {
 			first := []string{"Terminate", "Terminate", "Terminate", "Pause"}[rng.Intn(4)]
-			second := []string{"Reset", "Reset", "Reset", "Resume", "FlushWait", "Pause"}[rng.Intn(6)]
-			warm := time.Duration(2000+rng.Intn(6000)) * time.Microsecond
-			skew := time.Duration(rng.Intn(1500)) * time.Microsecond
+			second := []string{"Reset", "Reset", "Resume", "Resume", "Resume", "FlushWait", "Pause"}[rng.Intn(7)]
+			warm := us(2000, 6000)
+			skew := us(0, 2500)
 			hs.programs = append(hs.programs,
 				[]c29Op{{Kind: "Sleep", Sleep: warm}, {Kind: first, Slot: s}},
-				[]c29Op{{Kind: "Sleep", Sleep: warm + skew}, {Kind: second, Slot: s}, {Kind: "Sleep", Sleep: time.Millisecond}, {Kind: "Reset", Slot: s}})
+				[]c29Op{{Kind: "Sleep", Sleep: warm + skew}, {Kind: second, Slot: s}, {Kind: "Sleep", Sleep: time.Millisecond}, {Kind: []string{"Reset", "Resume"}[rng.Intn(2)], Slot: s}})
+		}
+		return hs
+	}
+	if saveFault {
+		// Slot 0 suffers the failing saves; slot 1 only sees commands that do
+		// not write session files.
+		prog := []c29Op{{Kind: "Sleep", Sleep: us(2000, 5000)}}
+		switch rng.Intn(3) {
+		case 0:
+			prog = append(prog, c29Op{Kind: "PauseFault"}, c29Op{Kind: "Pause"})
+		case 1:
+			prog = append(prog, c29Op{Kind: "Pause"}, c29Op{Kind: "ResumeFault"}, c29Op{Kind: "Sleep", Sleep: us(0, 6000)}, c29Op{Kind: "Resume"})
+		default:
+			prog = append(prog, c29Op{Kind: "PauseFault"}, c29Op{Kind: "Pause"}, c29Op{Kind: "Sleep", Sleep: us(0, 3000)},
+				c29Op{Kind: "ResumeFault"}, c29Op{Kind: "Sleep", Sleep: us(0, 6000)}, c29Op{Kind: "Resume"})
+			if rng.Intn(2) == 0 {
+				prog = append(prog, c29Op{Kind: "Sleep", Sleep: us(0, 3000)}, c29Op{Kind: "PauseFault"}, c29Op{Kind: "Pause"})
+			}
+		}
+		prog = append(prog, c29Op{Kind: "Sleep", Sleep: us(1000, 4000)})
+		hs.programs = append(hs.programs, prog,
+			[]c29Op{{Kind: "Sleep", Sleep: us(1000, 4000)}, {Kind: "FlushWait", Slot: 1}, {Kind: "Mutate", Slot: 1}, {Kind: "FlushWait", Slot: 1}, {Kind: "List", Slot: 1}, {Kind: "Flush", Slot: 1}})
+		return hs
+	}
+	if transitionFault {
+		for s := 0; s < nslots; s++ {
+			warm := us(2000, 5000)
+			hs.programs = append(hs.programs,
+				[]c29Op{{Kind: "Sleep", Sleep: warm}, {Kind: "FailTransitions", Slot: s}, {Kind: "Mutate", Slot: s}, {Kind: "FlushWait", Slot: s},
+					{Kind: "Mutate", Slot: s}, {Kind: "FlushWait", Slot: s}, {Kind: "Sleep", Sleep: us(0, 3000)}, {Kind: "HealTransitions", Slot: s},
+					{Kind: "Resume", Slot: s}, {Kind: "Mutate", Slot: s}, {Kind: "FlushWait", Slot: s}, {Kind: "FlushWait", Slot: s}},
+				[]c29Op{{Kind: "Sleep", Sleep: warm + us(0, 2000)}, {Kind: "FlushWait", Slot: s}, {Kind: "Mutate", Slot: s}, {Kind: "FlushWait", Slot: s}, {Kind: "Sleep", Sleep: us(0, 4000)}, {Kind: "FlushWait", Slot: s}})
 		}
 		return hs
 	}
@@ -430,7 +490,7 @@ func newHistory(h *scripted.Harness, rng *rand.Rand, idx int, quick bool) *histo
 
 func (hs *history) plan() string {
 	var sb strings.Builder
-	fmt.Fprintf(&sb, "%d sessions [", len(hs.slots))
+	fmt.Fprintf(&sb, "%s: %d sessions [", hs.flavour, len(hs.slots))
 	for _, s := range hs.slots {
 		fmt.Fprintf(&sb, " mode=%d paused=%v", s.Mode, s.Paused)
 	}
@@ -507,6 +567,43 @@ func (hs *history) exec(op c29Op) {
 	switch op.Kind {
 	case "Sleep":
 		time.Sleep(op.Sleep)
+	case "PauseFault", "ResumeFault":
+		// The session file cannot be saved during this one call: the sessions
+		// directory is renamed away and put back afterwards. Journaled as a
+		// plain Pause / Resume (note "save-fault") so that the oracles treat it
+		// like any other command that may have failed.
+		dir := filepath.Dir(func() string { p, _ := scripted.SessionFiles("x"); return p }())
+		hs.command(strings.TrimSuffix(op.Kind, "Fault"), slot, "save-fault", func(ctx context.Context, m *synchronization.Manager) error {
+			if err := os.Rename(dir, dir+".away"); err != nil {
+				return fmt.Errorf("harness could not move the sessions directory: %w", err)
+			}
+			defer os.Rename(dir+".away", dir)
+			if op.Kind == "PauseFault" {
+				return m.Pause(ctx, sel(), "")
+			}
+			return m.Resume(ctx, sel(), "")
+		})
+	case "FailTransitions":
+		err := fmt.Errorf("scripted fatal transition error")
+		slot.A.SetTransitionError(err)
+		slot.B.SetTransitionError(err)
+	case "HealTransitions":
+		slot.A.SetTransitionError(nil)
+		slot.B.SetTransitionError(nil)
+	case "Mutate":
+		hs.rngMu.Lock()
+		hs.digest++
+		d := hs.digest
+		hs.rngMu.Unlock()
+		slot.A.Update(func(e *core.Entry) *core.Entry {
+			if e != nil && e.Kind == core.EntryKind_Directory {
+				if e.Contents == nil {
+					e.Contents = map[string]*core.Entry{}
+				}
+				e.Contents[fmt.Sprintf("m%d", d%4)] = gen.File([]byte(fmt.Sprintf("mutated-%d-%d", hs.idx, d)), false)
+			}
+			return e
+		})
 	case "Pause":
 		hs.command("Pause", slot, "", func(ctx context.Context, m *synchronization.Manager) error { return m.Pause(ctx, sel(), "") })
 	case "Resume":
@@ -625,6 +722,10 @@ func (hs *history) run() c29Result {
 	time.Sleep(4 * time.Millisecond)
 	hs.restart(true)
 	time.Sleep(6 * time.Millisecond)
+	for _, s := range hs.slots {
+		sf, af := scripted.SessionFiles(s.ID())
+		hs.j.Finish(hs.j.Begin(scripted.Event{Op: "obs.files-at-end", Session: s.ID(), Note: fmt.Sprintf("session_file=%v archive_file=%v", exists(sf), exists(af))}), nil)
+	}
 	hs.cleanup()
 	events := hs.j.Snapshot()
 	hs.judge(events, &res)
@@ -776,7 +877,7 @@ func (hs *history) judge(events []scripted.Event, res *c29Result) {
 			}
 			res.Counts["flush_wait_succeeded"]++
 			for _, alpha := range []bool{true, false} {
-				found, complete := false, false
+				found, complete, failed := false, false, false
 				for _, s := range evs {
 					if s.Op != scripted.OpScan || s.Alpha != alpha || !s.Full || s.Start <= f.Start || s.End == 0 || s.End >= f.End || s.Err != "" {
 						continue
@@ -787,6 +888,10 @@ func (hs *history) judge(events []scripted.Event, res *c29Result) {
 						if e.Instance == s.Instance && e.Cycle == s.Cycle && (e.Op == scripted.OpStage || e.Op == scripted.OpSupply || e.Op == scripted.OpTransition) {
 							if e.End == 0 || e.End >= f.End {
 								ok = false
+							}
+							if e.Err != "" {
+								// a fatal staging / transition error: this cycle failed
+								ok, failed = false, true
 							}
 						}
 					}
@@ -802,6 +907,11 @@ func (hs *history) judge(events []scripted.Event, res *c29Result) {
 				if !found {
 					add("c-flush-without-full-scan", map[string]string{"side": side},
 						fmt.Sprintf("Flush(wait) returned success (called %d, returned %d) but no Scan(full=true) on %s started after the call and returned before it", f.Start, f.End, side),
+						map[string]any{"session": id, "flush": f, "journal": brief(events, id, 200)})
+					break
+				} else if !complete && failed {
+					add("c-flush-succeeded-on-failed-cycle", map[string]string{"side": side},
+						fmt.Sprintf("Flush(wait) returned success at %d although the only cycle(s) that could have answered it had a fatal Stage/Supply/Transition error on %s", f.End, side),
 						map[string]any{"session": id, "flush": f, "journal": brief(events, id, 200)})
 					break
 				} else if !complete {
@@ -842,6 +952,27 @@ func (hs *history) judge(events []scripted.Event, res *c29Result) {
 					break
 				}
 			}
+			for _, e := range evs {
+				if e.Op == "obs.files-at-end" && e.Start > t.End && e.Note != "session_file=false archive_file=false" {
+					already := false
+					for _, x := range evs {
+						already = already || x.Op == "obs.files-after-terminate"
+					}
+					if already {
+						break // reported above: the files never went away
+					}
+					racing := ""
+					for _, c := range cmds {
+						if (c.Op == "cmd.Resume" || c.Op == "cmd.Reset" || c.Op == "cmd.Pause") && c.Start < t.End && (c.End == 0 || c.End > t.Start) {
+							racing += strings.TrimPrefix(c.Op, "cmd.") + fmt.Sprintf("(ok=%v) ", c.Err == "")
+						}
+					}
+					add("d-files-reappeared-after-terminate", map[string]string{"files": e.Note},
+						"persisted state that was gone when Terminate returned success is on disk again at the end of the history: "+e.Note+"; commands overlapping the Terminate: "+racing,
+						map[string]any{"session": id, "journal": brief(events, id, 100)})
+					break
+				}
+			}
 			for k, ro := range hs.restartObs {
 				if ro.Seq > t.End && ro.After != nil {
 					if _, listed := ro.After[id]; listed {
@@ -867,7 +998,15 @@ func (hs *history) judge(events []scripted.Event, res *c29Result) {
 				add("b-session-lost-in-restart", nil, "a session listed before the restart is not listed by the restarted manager",
 					map[string]any{"session": id, "restart": k, "before": ro.Before, "after": ro.After})
 			} else if after != paused {
-				add("b-pause-flag-changed-in-restart", map[string]string{"before": fmt.Sprint(paused)},
+				// Name an earlier command on this session whose session-file save
+				// failed: it identifies the fault-and-retry defect class.
+				fault := "none"
+				for _, c := range bySession[id] {
+					if strings.HasPrefix(c.Op, "cmd.") && c.End != 0 && c.End < ro.Seq && strings.Contains(c.Err, "unable to save session") {
+						fault = strings.ToLower(strings.TrimPrefix(c.Op, "cmd."))
+					}
+				}
+				add("b-pause-flag-changed-in-restart", map[string]string{"before": fmt.Sprint(paused), "save_fault": fault},
 					fmt.Sprintf("session listed paused=%v before the restart and paused=%v after it", paused, after),
 					map[string]any{"session": id, "restart": k, "journal": brief(events, id, 100)})
 			}
@@ -941,13 +1080,32 @@ func (hs *history) judge(events []scripted.Event, res *c29Result) {
 			res.Counts["resets_overlapped"]++
 			continue
 		}
+		// Endpoint instances connected by the Reset itself: connected inside the
+		// call and not shut down inside it. (A run loop that was still connecting
+		// when the Reset arrived - e.g. right after a manager restart - also
+		// connects inside the call, but Reset halts that loop, which shuts its
+		// endpoints down, before it clears the archive.)
 		var insts []int
+		connects := 0
 		for _, e := range evs {
 			if e.Op == scripted.OpConnect && e.Start > z.Start && e.Start < z.End && e.Err == "" {
-				insts = append(insts, e.Instance)
+				connects++
+				old := false
+				for _, x := range evs {
+					if x.Op == scripted.OpShutdown && x.Instance == e.Instance && x.Start < z.End {
+						old = true
+					}
+				}
+				if !old {
+					insts = append(insts, e.Instance)
+				}
 			}
 		}
-		if len(insts) == 0 {
+		if connects > 0 && len(insts) == 0 {
+			res.Counts["resets_unjudgeable"]++
+			continue
+		}
+		if connects == 0 {
 			res.Counts["resets_judged"]++
 			res.Counts["resets_judged_paused"]++
 			if z.ReadErr != "" {
